@@ -50,6 +50,9 @@ type Script struct {
 	PanicSite string     `json:"panic_site,omitempty"`
 	NReq      int        `json:"nreq"`
 	Leave     string     `json:"leave,omitempty"` // window0-reset: rst, close, goaway-close
+	// RWTimeoutMs > 0: the servers run with ReadTimeout and WriteTimeout of that length (the binary configures both,
+	// 60 s by default): their timers fire on goroutines of their own while the victim stalls
+	RWTimeoutMs int64 `json:"rw_timeout_ms,omitempty"`
 }
 
 var col = vstat.New("C10", "c10.robust")
@@ -136,7 +139,8 @@ func genMuts(t *rapid.T) []Mutation {
 }
 
 func gen(t *rapid.T) Script {
-	s := Script{ALPN: rapid.SampledFrom([]string{"h2", "http/1.1", ""}).Draw(t, "alpn"), NReq: rapid.IntRange(1, 3).Draw(t, "nreq")}
+	s := Script{ALPN: rapid.SampledFrom([]string{"h2", "http/1.1", ""}).Draw(t, "alpn"), NReq: rapid.IntRange(1, 3).Draw(t, "nreq"),
+		RWTimeoutMs: rapid.SampledFrom([]int64{0, 0, 500, 60000}).Draw(t, "rwTimeout")}
 	switch s.Kind = rapid.SampledFrom([]string{"bytes", "mutate-plain", "mutate-plain", "mutate-plain", "mutate-tls", "truncate", "stall", "iofault", "iofault", "panic", "panic", "h2-frames", "h2-frames", "h2-frames", "stall-reset", "window0-reset"}).Draw(t, "kind"); s.Kind {
 	case "window0-reset":
 		// a client that announces a zero stream window, asks for responses a user-supplied handler writes
@@ -277,7 +281,8 @@ func exec(t *testing.T, s Script) *vstat.Violation {
 				return nil
 			}
 		}
-		opts := rig.ProxyOpts{IdleTimeout: time.Minute, TLSHandshakeTimeout: 10 * time.Second, TLSConfig: tc}
+		opts := rig.ProxyOpts{IdleTimeout: time.Minute, TLSHandshakeTimeout: 10 * time.Second, TLSConfig: tc,
+			ReadTimeout: time.Duration(s.RWTimeoutMs) * time.Millisecond, WriteTimeout: time.Duration(s.RWTimeoutMs) * time.Millisecond}
 		if site == "ConnState" {
 			opts.ConnState = func(c net.Conn, st http.ConnState) {
 				if isVictim(c.RemoteAddr()) && st == http.StateActive {
@@ -541,6 +546,9 @@ func exec(t *testing.T, s Script) *vstat.Violation {
 		return nil
 	}
 	classes = append(classes, "kind:"+s.Kind, "alpn:"+s.ALPN)
+	if s.RWTimeoutMs > 0 && s.RWTimeoutMs < 40000 {
+		classes = append(classes, "read/write-timeouts-fire-while-the-victim-stalls")
+	}
 	if s.PanicSite != "" {
 		classes = append(classes, "panic-site:"+s.PanicSite)
 	}
@@ -585,7 +593,7 @@ var _ = errors.New
 
 func TestRobust(t *testing.T) {
 	rig.Certs()
-	col.Mandatory("kind:bytes", "kind:mutate-plain", "kind:mutate-tls", "kind:truncate", "kind:stall", "kind:iofault", "kind:panic", "kind:h2-frames", "kind:stall-reset", "kind:window0-reset", "past-tls-handshake",
+	col.Mandatory("kind:bytes", "kind:mutate-plain", "kind:mutate-tls", "kind:truncate", "kind:stall", "kind:iofault", "kind:panic", "kind:h2-frames", "kind:stall-reset", "kind:window0-reset", "read/write-timeouts-fire-while-the-victim-stalls", "past-tls-handshake",
 		"panic-site:GetCertificate", "panic-site:GetConfigForClient", "panic-site:VerifyConnection", "panic-site:ConnState", "panic-site:injector", "panic-site:handler",
 		"fault:Read", "fault:Write", "fault:SetDeadline", "fault:Close")
 	vstat.Run(t, vstat.Spec[Script]{Col: col, Quick: 1500, Thorough: 40000, Gen: gen, Exec: func(s Script) *vstat.Violation { return exec(t, s) }})
